@@ -25,10 +25,27 @@ ASSUMPTIONS = [
     "against the exact path and defers to it within 1e-6 of a rounding tie",
 ]
 
-HEX_RE = re.compile(r"#[0-9a-f]{6}\Z")
-RGB_RE = re.compile(r"rgb\(\s*\d{1,3}\s*,\s*\d{1,3}\s*,\s*\d{1,3}\s*\)\Z")
-_N = r"[+-]?(?:\d+\.\d+|\.\d+|\d+)"
-HSL_RE = re.compile(r"hsl\(\s*" + _N + r"\s*,\s*" + _N + r"%\s*,\s*" + _N + r"%\s*\)\Z")
+HEX_RE = re.compile(r"#(?:[0-9a-fA-F]{3}|[0-9a-fA-F]{6})\Z")
+
+
+def shape_ok(out, want):
+    """Is `out` a value of the documented output kind? Decided by CSS semantics (any letter case, any valid
+    number spelling), not by one particular spelling: hex = '#' + 3/6 hex digits; rgb / hsl = an opaque CSS
+    rgb() / hsl() function that O-CSS accepts."""
+    if not isinstance(out, str):
+        return False
+    if want == "hex":
+        return bool(HEX_RE.match(out))
+    low = out.lower()
+    if not low.startswith(want + "("):
+        return False
+    if (ocss._RGBI_RE if want == "rgb" else ocss._HSL_RE).match(out):
+        return True  # the common spellings, decided without exact arithmetic
+    try:
+        return ocss.parse(out)[3] == 1
+    except ocss.CssReject:
+        return False
+
 
 FORMATS = ("hex", "rgb", "hsl", "rgb_tuple")
 
@@ -56,9 +73,8 @@ def check_readback(rgb, fmt, cp):
     else:
         if not isinstance(out, str):
             raise Violation("string-format-type", f"format_color({rgb}, {fmt!r}) = {out!r}")
-        shape = {"hex": HEX_RE, "rgb": RGB_RE, "hsl": HSL_RE}[fmt]
-        if not shape.match(out):
-            raise Violation(f"not-valid-css:{fmt}", f"format_color({rgb}, {fmt!r}) = {out!r} is outside the CSS grammar for that form")
+        if not shape_ok(out, fmt):
+            raise Violation(f"not-valid-css:{fmt}", f"format_color({rgb}, {fmt!r}) = {out!r} is not a valid CSS {fmt} value")
         try:
             seen = ocss.read_fast(out)
         except ocss.CssReject as e:
@@ -176,8 +192,8 @@ def mapping_judge(case):
     ok = False
     if want == "tuple":
         ok = isinstance(result, tuple) and len(result) == 3 and all(type(v) is int and 0 <= v <= 255 for v in result)
-    elif isinstance(result, str):
-        ok = bool({"hex": HEX_RE, "rgb": RGB_RE, "hsl": HSL_RE}[want].match(result))
+    else:
+        ok = shape_ok(result, want)
     orig_passes = ow.ratio(pair.text.rgb, pair.bg.rgb) >= minimum
     outcome = "unchanged" if orig_passes else ("fixed" if success else "failed")
     if not ok:
